@@ -213,6 +213,7 @@ class C18(HistoryProperty):
     def gen_case(self, rng, tier):
         subst = rng.random() < 0.5
         cfg = gen.swarm_cfg(rng, off=("shape_change",) + (("cached", "derive") if subst else ()), on=("dsclass", "fapp", "namespace"))
+        cfg["wrapping_datasets"] = rng.random() < 0.5  # dataset(<expression or dataset>, ...): the wrapped object stays a node of the graph
         cfg["namespace_keys"] = True
         cfg["lib_steps"] = rng.choice([False, False, "all"])  # pipeline steps taken from labrea.functions (the library's own helpers)
         spec = gen.gen_spec(rng, cfg)
